@@ -188,6 +188,9 @@ func (c *channel) sendMsg(req request) (err error) {
 	defer c.streamMut.RUnlock()
 
 	done := make(chan struct{})
+	// cancelStream is replaced (under the write lock) when the stream is re-created;
+	// the goroutine below may outlive our read lock, so it must not read the field.
+	cancelStream := c.cancelStream
 
 	// This goroutine waits for either 'done' to be closed, or the request context to be cancelled.
 	// If the request context was cancelled, we have two possibilities:
@@ -205,7 +208,7 @@ func (c *channel) sendMsg(req request) (err error) {
 				// false alarm
 			default:
 				// trigger reconnect
-				c.cancelStream()
+				cancelStream()
 			}
 		}
 	}()
